@@ -60,7 +60,7 @@ for _fn in ("dense", "sparse", "intermediate", "combined"):
     contract(
         target=f"{MV}::capa_penalty_factory", variant=_fn,
         params={"penalty": f"str={_fn}"},
-        returns="fn",
+        returns=f"=funcref('{MV}::{_fn}_mvcapa_penalty')",
         ensures={"dispatch": f"typeis(result, '{_fn}_mvcapa_penalty')"},
         props=["C15"],
     )
